@@ -1848,6 +1848,12 @@ class mulgrid(object):
                     layer.top = max(layer.bottom, layer.top)
                     layer.centre = 0.5 * (layer.bottom + layer.top)
                 if not silent: print('Layers fixed.')
+        if fix and not ok:
+            # bring data derived from the fixed items up to date:
+            for col in self.columnlist: col.neighbour = set([])
+            self.identify_neighbours()
+            self.setup_block_name_index()
+            self.setup_block_connection_name_index()
         if ok and not silent: print('No problems found.')
         return ok
 
